@@ -103,12 +103,11 @@ def preload():
     import tangelo.toolboxes.ansatz_generator  # noqa
     import tangelo.toolboxes.ansatz_generator.adapt_ansatz  # noqa
     import tangelo.toolboxes.ansatz_generator.rucc  # noqa
-    for k in ("H2", "H2+", "H2uhf", "H4", "H4f"):
-        mol(k)
-    _pool("jw", False)
+    # (molecules are built lazily in the process that needs them: workers come from a fork server and do not inherit them)
 
 
 _POOL = {}
+POOL_SIZE = 4          # generalised singles + doubles on 4 spin-orbitals (checked in _pool)
 
 
 def _pool(mapping, utd):
@@ -124,6 +123,7 @@ def _pool(mapping, utd):
             for t, c in op.terms.items():
                 op.terms[t] = math.copysign(1., c.imag)
         _POOL[key] = [op for op in ops if op.terms]
+        assert len(_POOL[key]) >= POOL_SIZE, len(_POOL[key])
     return _POOL[key]
 
 
@@ -723,12 +723,42 @@ def patterns(n, tier, rnd, n_extra):
 
 
 _NP = {}
+_NP_LOADED = [False]
+
+
+def _np_file():
+    import hashlib
+    import os
+    import tempfile
+    from symx import core
+    tag = hashlib.sha1(core.REPO.encode()).hexdigest()[:10]
+    return os.path.join(tempfile.gettempdir(), f"verif_c07_nparams_{os.getuid()}_{tag}.json")
 
 
 def _nparams(kind, cfg):
-    key = (kind, _cname(cfg))
+    """n_var_params of a configuration (needed to lay out the zero/sign patterns).  The parent process computes the table
+    from the real classes and leaves it in a temp file; worker processes (started by a fork server, so they do not
+    inherit the parent's objects) read it instead of constructing every ansatz and molecule again"""
+    import json
+    import multiprocessing
+    import os
+    key = kind + "|" + _cname(cfg)
+    parent = multiprocessing.current_process().name == "MainProcess"
+    if not parent and not _NP_LOADED[0]:
+        _NP_LOADED[0] = True
+        try:
+            _NP.update(json.load(open(_np_file())))
+        except Exception:
+            pass
     if key not in _NP:
         _NP[key] = make_any(kind, cfg).n_var_params
+        if parent:
+            try:
+                tmp = _np_file() + f".{os.getpid()}"
+                json.dump(_NP, open(tmp, "w"))
+                os.replace(tmp, _np_file())
+            except Exception:
+                pass
     return _NP[key]
 
 
@@ -832,12 +862,12 @@ def shapes(tier, seed):
         if kind not in first_canary:
             first_canary[kind] = (cfg, n, occ)
     # ADAPT: operators added one by one
-    pool_n = len(_pool("jw", False))
+    pool_n = POOL_SIZE
     adapt_cfgs = [("jw", False, (0, 2)), ("jw", False, (pool_n - 1, 1, 3)), ("bk", True, (2, pool_n - 2)), ("scbk", True, (1,))]
     if T:
         adapt_cfgs += [("jw", True, (3, 0, pool_n - 1)), ("bk", False, (0, 1, 2)), ("jw", False, tuple(range(min(pool_n, 4))))]
     for mp, utd, picks in adapt_cfgs:
-        picks = tuple(p % len(_pool(mp, utd)) for p in picks)
+        picks = tuple(p % POOL_SIZE for p in picks)
         r = random.Random(f"{seed}/adapt/{mp}/{utd}/{picks}")
         variants = [tuple("".join(r.choice("+-") if i < j else "s" for i in range(j + 1)) for j in range(len(picks)))]
         variants.append(tuple("".join(r.choice("+-0") for i in range(j + 1)) if j + 1 < len(picks) else "s" * (j + 1) for j in range(len(picks))))
